@@ -51,3 +51,13 @@ Definition abs_subs (h : list op) : list (skey * sparams) := fold_left abs_step 
 (* who must receive a publish on topic t: one entry per matching subscription *)
 Definition spec_deliver (m : list (skey * sparams)) (t : list lvl) : list (N * sparams) :=
   map (fun x => (snd (fst x), snd x)) (filter (fun x => matches (fst (fst x)) t) m).
+
+(* specification of the retained store: last non-empty retained publish per topic *)
+Definition abs_ret_step (m : list (list lvl * msg)) (o : op) : list (list lvl * msg) :=
+  match o with
+  | ORetain t mg e =>
+      let m' := filter (fun x => negb (path_eqb (fst x) (split t))) m in
+      if e then m' else (split t, mg) :: m'
+  | _ => m
+  end.
+Definition abs_rets (h : list op) : list (list lvl * msg) := fold_left abs_ret_step h [].
